@@ -51,9 +51,13 @@ def _read_track(chunk):
     while off < len(chunk):
         delta, off = _var_int(chunk, off)
         deltasum += delta
+        if off >= len(chunk):
+            raise SMFError("Not enough data")
         event_type = chunk[off]
         off += 1
         if event_type == 0xFF:
+            if off >= len(chunk):
+                raise SMFError("Not enough data")
             meta_type = chunk[off]
             off += 1
             num, off = _var_int(chunk, off)
